@@ -200,6 +200,7 @@ func (f *failReader) Read(p []byte) (int, error) {
 
 // faultWriter accepts everything until call number at.
 type faultWriter struct {
+	wbig    int             // > 0: sleep that many microseconds in every Write of 1 KiB or more
 	stall   <-chan struct{} // non-nil: every Write waits until it is closed
 	yield   int
 	mu      sync.Mutex
@@ -214,6 +215,9 @@ type faultWriter struct {
 func (w *faultWriter) Write(p []byte) (int, error) {
 	if w.stall != nil {
 		<-w.stall
+	}
+	if w.wbig > 0 && len(p) >= 1024 {
+		time.Sleep(time.Duration(w.wbig) * time.Microsecond)
 	}
 	yieldNow(w.yield)
 	w.mu.Lock()
@@ -374,7 +378,7 @@ func handleOne(rq wproto.Req, alone bool) (rp wproto.Rep) {
 	// fw is the sink of the operation: the writer handed to Output*, or - for Mkdir, which takes no writer - the colour
 	// package's process-wide writer, where its dry-run report goes by design.  cw is color.Output for the operations
 	// that were GIVEN a writer: nothing may arrive there (reported as Stray).
-	fw := &faultWriter{buf: &buf, fault: rq.WFault, yield: rq.Yield, e: wrapErr(errWriter, rq.ErrWrap)}
+	fw := &faultWriter{buf: &buf, fault: rq.WFault, yield: rq.Yield, wbig: rq.WBig, e: wrapErr(errWriter, rq.ErrWrap)}
 	cw := &faultWriter{buf: &cbuf}
 	if alone {
 		if rq.Op == "mkdir" {
